@@ -34,7 +34,7 @@ func DriveDeque(r *rec.Rec, rng *rand.Rand, run, ops int, variant string) {
 		}
 		r.Emit(ev)
 	}
-	val := func() int { return 1 + rng.Intn(9) }
+	val := func() int { return rng.Intn(10) } // 0 included: the zero value of the element type is an element
 	for i := 0; i < ops; i++ {
 		n := d.Len()
 		c := rng.Intn(100)
